@@ -10,6 +10,8 @@ use std::sync::mpsc;
 use std::time::Instant;
 
 pub type PropById = fn(&str) -> Option<Box<dyn Prop>>;
+/// Extra subcommands of a world's binary: returns None for an unknown one.
+pub type Extra = fn(&str, &[String]) -> Option<i32>;
 
 thread_local! {
     static PROPS: std::cell::Cell<Option<PropById>> = const { std::cell::Cell::new(None) };
@@ -34,7 +36,7 @@ fn harness_error(msg: &str) -> ! {
 }
 
 /// Entry point of a world's binary.
-pub fn run_main(props: PropById, stack_bytes: usize) -> ! {
+pub fn run_main(props: PropById, stack_bytes: usize, extra: Extra) -> ! {
     let args: Vec<String> = std::env::args().collect();
     if args.len() < 2 {
         harness_error("usage: worlda check|worker|replay ...");
@@ -43,7 +45,12 @@ pub fn run_main(props: PropById, stack_bytes: usize) -> ! {
     // All simulation work happens on a thread with a large stack so that deep
     // (but bounded) recursion in rsass is not mistaken for non-termination.
     let h = std::thread::Builder::new()
-        .stack_size(stack_bytes)
+        .stack_size(
+            std::env::var("VERIF_MAIN_STACK_MB")
+                .ok()
+                .and_then(|s| s.parse::<usize>().ok())
+                .map_or(stack_bytes, |mb| mb << 20),
+        )
         .spawn(move || {
             PROPS.with(|p| p.set(Some(props)));
             match args[1].as_str() {
@@ -51,7 +58,8 @@ pub fn run_main(props: PropById, stack_bytes: usize) -> ! {
             "worker" => cmd_worker(&args[2..]),
             "replay" => cmd_replay(&args[2..]),
             "one" => cmd_one(&args[2..]),
-            _ => harness_error("unknown subcommand"),
+            "merge-evidence" => cmd_merge(&args[2..]),
+            other => extra(other, &args[2..]).unwrap_or_else(|| harness_error("unknown subcommand")),
             }
         })
         .unwrap();
@@ -255,7 +263,10 @@ fn cmd_check(args: &[String]) -> i32 {
     let seed = crate::env_seed();
     let nworkers: usize = opt(args, "--workers")
         .and_then(|s| s.parse().ok())
-        .unwrap_or_else(|| std::thread::available_parallelism().map_or(8, |n| n.get()));
+        .unwrap_or_else(|| {
+            let n = std::thread::available_parallelism().map_or(8, |n| n.get());
+            prop.max_workers().map_or(n, |m| m.min(n))
+        });
     let total: u64 = opt(args, "--runs").and_then(|s| s.parse().ok()).unwrap_or_else(|| prop.runs(tier));
     let deadline_s: u64 = opt(args, "--deadline").and_then(|s| s.parse().ok()).unwrap_or(match tier {
         Tier::Quick => 240,
@@ -263,11 +274,22 @@ fn cmd_check(args: &[String]) -> i32 {
     });
     let kfs = load_known_findings(&format!("{}/known_findings.json", verif_dir()))
         .unwrap_or_else(|e| harness_error(&e));
-    println!("SEED {seed} property={id} tier={} runs={total} workers={nworkers}", tier.name());
+    let part: Option<String> = opt(args, "--part").map(str::to_string);
+    let file_prefix = match &part {
+        Some(p) => format!("{id}-{p}-"),
+        None => format!("{id}-"),
+    };
+    println!(
+        "SEED {seed} property={id}{} tier={} runs={total} workers={nworkers}",
+        part.as_ref().map(|p| format!(" part={p}")).unwrap_or_default(),
+        tier.name()
+    );
     // replay files of earlier runs of this check are stale by definition
     if let Ok(rd) = std::fs::read_dir(format!("{}/replays", verif_dir())) {
         for e in rd.flatten() {
-            if e.file_name().to_string_lossy().starts_with(&format!("{id}-")) {
+            let name = e.file_name().to_string_lossy().to_string();
+            // a part only clears its own files; a whole check clears everything of the property
+            if name.starts_with(&file_prefix) {
                 let _ = std::fs::remove_file(e.path());
             }
         }
@@ -422,7 +444,7 @@ fn cmd_check(args: &[String]) -> i32 {
         }
         reported.push(class);
         let path = format!(
-            "{replay_dir}/{id}-{}-{}-{:04x}.json",
+            "{replay_dir}/{file_prefix}{}-{}-{:04x}.json",
             v.oracle,
             crate::hex(v.seed),
             crate::fnv64(v.signature.as_bytes()) & 0xffff
@@ -504,7 +526,10 @@ fn cmd_check(args: &[String]) -> i32 {
             evidence["coverage"][k] = v.clone();
         }
     }
-    let epath = format!("{}/evidence/{id}.json", verif_dir());
+    let epath = match &part {
+        Some(p) => format!("{}/evidence/{id}.part-{p}.json", verif_dir()),
+        None => format!("{}/evidence/{id}.json", verif_dir()),
+    };
     if let Err(e) = crate::write_json(&epath, &evidence) {
         harness_error(&format!("{epath}: {e}"));
     }
@@ -524,5 +549,84 @@ fn cmd_check(args: &[String]) -> i32 {
         }
         return 2;
     }
+    0
+}
+
+// ---------------------------------------------------------------- merging parts
+
+/// `merge-evidence <ID> <part>...`: combine the evidence of the parts of a
+/// check (run by different binaries) into /verif/evidence/<ID>.json.
+fn cmd_merge(args: &[String]) -> i32 {
+    let id = &args[0];
+    let mut parts: Vec<(String, Json)> = vec![];
+    for p in &args[1..] {
+        let path = format!("{}/evidence/{id}.part-{p}.json", verif_dir());
+        let text = std::fs::read_to_string(&path).unwrap_or_else(|e| harness_error(&format!("{path}: {e}")));
+        let j: Json = serde_json::from_str(&text).unwrap_or_else(|e| harness_error(&format!("{path}: {e}")));
+        parts.push((p.clone(), j));
+        let _ = std::fs::remove_file(&path);
+    }
+    if parts.is_empty() {
+        harness_error("merge-evidence: no parts");
+    }
+    let sum_u = |k: &str| -> u64 { parts.iter().map(|(_, j)| j["coverage"][k].as_u64().unwrap_or(0)).sum() };
+    let wall: f64 = parts.iter().map(|(_, j)| j["wall_s"].as_f64().unwrap_or(0.0)).sum();
+    let violations: u64 = parts.iter().map(|(_, j)| j["violations"].as_u64().unwrap_or(0)).sum();
+    let mut samples = vec![];
+    let mut rule = String::new();
+    let mut assumptions: Vec<Json> = vec![];
+    let mut by_part = serde_json::Map::new();
+    let mut fired = serde_json::Map::new();
+    for (name, j) in &parts {
+        for s in j["coverage"]["samples"].as_array().cloned().unwrap_or_default() {
+            samples.push(json!({"part": name, "sample": s}));
+        }
+        rule.push_str(&format!("[part {name}] {} ", j["coverage"]["rule"].as_str().unwrap_or("")));
+        for a in j["assumptions"].as_array().cloned().unwrap_or_default() {
+            if !assumptions.contains(&a) {
+                assumptions.push(a);
+            }
+        }
+        if let Some(f) = j["coverage"]["fault_kinds_fired"].as_object() {
+            for (k, v) in f {
+                let cur = fired.get(k).and_then(Json::as_u64).unwrap_or(0);
+                fired.insert(k.clone(), json!(cur + v.as_u64().unwrap_or(0)));
+            }
+        }
+        let mut c = j["coverage"].clone();
+        if let Some(o) = c.as_object_mut() {
+            o.remove("samples");
+        }
+        by_part.insert(name.clone(), c);
+    }
+    let runs = sum_u("simulated_runs");
+    let first = &parts[0].1;
+    let evidence = json!({
+        "property_id": id,
+        "tier": first["tier"],
+        "seed": first["seed"],
+        "level": first["level"],
+        "wall_s": wall,
+        "violations": violations,
+        "coverage": {
+            "evaluations": sum_u("evaluations"),
+            "distinct_nontrivial": sum_u("distinct_nontrivial"),
+            "rule": rule.trim(),
+            "samples": samples,
+            "simulated_runs": runs,
+            "runs_per_hour": if wall > 0.0 { (runs as f64 / wall * 3600.0) as u64 } else { 0 },
+            "seeds_per_hour": if wall > 0.0 { (runs as f64 / wall * 3600.0) as u64 } else { 0 },
+            "simulated_time": Json::Null,
+            "fault_kinds_fired": fired,
+            "parts": by_part,
+            "exhaustive": false,
+        },
+        "assumptions": assumptions,
+    });
+    let epath = format!("{}/evidence/{id}.json", verif_dir());
+    if let Err(e) = crate::write_json(&epath, &evidence) {
+        harness_error(&format!("{epath}: {e}"));
+    }
+    println!("MERGED property={id} parts={} evaluations={} distinct={}", parts.len(), sum_u("evaluations"), sum_u("distinct_nontrivial"));
     0
 }
